@@ -258,7 +258,7 @@ func kindChildren(w *World, root *FuncInfo, targets map[*types.Func]bool) map[st
 				return true
 			}
 			h := w.Funcs[calleeOf(info, call)]
-			if h == nil || h == root || h.Pkg != root.Pkg || h.Decl.Body == nil || targets[h.Obj] {
+			if h == nil || h == root || h.Pkg != root.Pkg || h.Decl.Body == nil {
 				return true
 			}
 			for _, a := range call.Args {
@@ -482,8 +482,27 @@ func collectChildUses(w *World, fi *FuncInfo, body ast.Node, roots map[types.Obj
 // recursionShape: namer ⊑ definer, per node kind.
 func recursionShape(w *World, r *Result, rule, namer, definer string) int {
 	nf, df := w.MustFunc(namer), w.MustFunc(definer)
-	nUses := kindChildren(w, nf, map[*types.Func]bool{nf.Obj: true})
-	dUses := kindChildren(w, df, map[*types.Func]bool{df.Obj: true})
+	// the descent may sit in a helper the function hands its node parameter to (`f(ty) = fRec(ty, seen)`): the helper's
+	// own recursive calls are descents too
+	targetsOf := func(fi *FuncInfo) map[*types.Func]bool {
+		t := map[*types.Func]bool{fi.Obj: true}
+		for _, h := range nodeParamHelpers(w, fi) {
+			t[h.Obj] = true
+		}
+		return t
+	}
+	total := func(m map[string][]childUse) int {
+		c := 0
+		for _, v := range m {
+			c += len(v)
+		}
+		return c
+	}
+	nUses := kindChildren(w, nf, targetsOf(nf))
+	if total(nUses) == 0 {
+		Undecided("%s: %s follows no child of any node kind: the namer's descent was not found", rule, namer)
+	}
+	dUses := kindChildren(w, df, targetsOf(df))
 	var kinds []string
 	for k := range nUses {
 		kinds = append(kinds, k)
